@@ -1,3 +1,90 @@
-import Gp.Model.Layers.Udp
+import Gp.Lemmas.Layers.UdpRt
+/-
+  C17 for layers/udp.go (engine `ludp`): the TransportFlow of every decoded UDP layer carries
+  exactly the source / destination port bytes of the decoded input (and these are the layer's
+  SrcPort / DstPort in network byte order), with endpoint type EndpointUDPPort; the two
+  directions of a conversation give mutually reversed flows.
+  `Flow` is gopacket.Flow as it is stored: type, two lengths, two zero-padded 16-byte arrays —
+  so `=` on it is Go's `==` (map-key equality).
+-/
 namespace Gp.C17.Udp
+open Gp Gp.Udp
+
+/-- The flow of a decoded layer: no panic, type UDP, endpoints = bytes 0..1 and 2..3 of the input
+    = big-endian SrcPort / DstPort, stored zero-padded. -/
+theorem flow_of_decoded (old : Layer) (data foreign : Bytes) (l : Layer) (t : Bool)
+    (h : decodeUdp old data foreign = .ok (l, t)) :
+    ∃ f, transportFlow l = .ok f ∧ f.typ = EndpointUDPPort ∧
+      f.srcBytes = data.take 2 ∧ f.dstBytes = (data.drop 2).take 2 ∧
+      f.srcBytes = putBe16 l.srcPort ∧ f.dstBytes = putBe16 l.dstPort ∧
+      f.slen = 2 ∧ f.dlen = 2 ∧ f.src = pad16 (data.take 2) ∧ f.dst = pad16 ((data.drop 2).take 2) := by
+  have sh := decodeUdp_shape old data foreign l t h
+  have hs : l.sPort.length = 2 := by rw [sh.sportF]; rfl
+  have hd : l.dPort.length = 2 := by rw [sh.dportF]; rfl
+  refine ⟨_, newFlow_ok _ _ _ (by omega) (by omega), rfl, ?_, ?_, ?_, ?_, hs, hd, ?_, ?_⟩
+  · simp only [Flow.srcBytes]; rw [take_pad16, sh.sport]
+  · simp only [Flow.dstBytes]; rw [take_pad16, sh.dport]
+  · simp only [Flow.srcBytes]; rw [take_pad16, sh.sportF]
+  · simp only [Flow.dstBytes]; rw [take_pad16, sh.dportF]
+  · rw [sh.sport]
+  · rw [sh.dport]
+
+/-- Reading the flow of a decoded layer never panics (NewFlow's explicit panic needs > 16 bytes). -/
+theorem flow_no_panic (old : Layer) (data foreign : Bytes) (l : Layer) (t : Bool)
+    (h : decodeUdp old data foreign = .ok (l, t)) (k : PanicKind) : transportFlow l ≠ .panic k := by
+  obtain ⟨f, hf, _⟩ := flow_of_decoded old data foreign l t h
+  rw [hf]; intro h'; cases h'
+
+/-- The two directions of one conversation: if the second datagram's ports are the first one's
+    swapped, its flow is the reverse of the first one's — and conversely. -/
+theorem conversation_reversed (o₁ o₂ : Layer) (d₁ d₂ g₁ g₂ : Bytes) (l₁ l₂ : Layer) (t₁ t₂ : Bool)
+    (h₁ : decodeUdp o₁ d₁ g₁ = .ok (l₁, t₁)) (h₂ : decodeUdp o₂ d₂ g₂ = .ok (l₂, t₂)) :
+    ∃ f₁ f₂, transportFlow l₁ = .ok f₁ ∧ transportFlow l₂ = .ok f₂ ∧
+      (f₂ = f₁.reverse ↔ (l₂.srcPort = l₁.dstPort ∧ l₂.dstPort = l₁.srcPort)) ∧
+      (f₂ = f₁.reverse ↔ (d₂.take 2 = (d₁.drop 2).take 2 ∧ (d₂.drop 2).take 2 = d₁.take 2)) := by
+  have s₁ := decodeUdp_shape o₁ d₁ g₁ l₁ t₁ h₁
+  have s₂ := decodeUdp_shape o₂ d₂ g₂ l₂ t₂ h₂
+  have a1 : l₁.sPort.length = 2 := by rw [s₁.sportF]; rfl
+  have a2 : l₁.dPort.length = 2 := by rw [s₁.dportF]; rfl
+  have b1 : l₂.sPort.length = 2 := by rw [s₂.sportF]; rfl
+  have b2 : l₂.dPort.length = 2 := by rw [s₂.dportF]; rfl
+  have key : ({ typ := EndpointUDPPort, slen := l₂.sPort.length, dlen := l₂.dPort.length, src := pad16 l₂.sPort,
+                dst := pad16 l₂.dPort } : Flow) =
+             Flow.reverse { typ := EndpointUDPPort, slen := l₁.sPort.length, dlen := l₁.dPort.length,
+                            src := pad16 l₁.sPort, dst := pad16 l₁.dPort } ↔
+             (l₂.sPort = l₁.dPort ∧ l₂.dPort = l₁.sPort) := by
+    simp only [Flow.reverse, Flow.mk.injEq, true_and, a1, a2, b1, b2]
+    constructor
+    · rintro ⟨hs, hd⟩; exact ⟨pad16_inj _ _ b1 a2 hs, pad16_inj _ _ b2 a1 hd⟩
+    · rintro ⟨hs, hd⟩; rw [hs, hd]; exact ⟨rfl, rfl⟩
+  refine ⟨_, _, newFlow_ok _ _ _ (by omega) (by omega), newFlow_ok _ _ _ (by omega) (by omega), ?_, ?_⟩
+  · rw [key, s₁.sportF, s₁.dportF, s₂.sportF, s₂.dportF]
+    constructor
+    · rintro ⟨hs, hd⟩
+      exact ⟨putBe16_inj _ _ s₂.wf.1 s₁.wf.2.1 hs, putBe16_inj _ _ s₂.wf.2.1 s₁.wf.1 hd⟩
+    · rintro ⟨hs, hd⟩; rw [hs, hd]; exact ⟨rfl, rfl⟩
+  · rw [key, s₁.sport, s₁.dport, s₂.sport, s₂.dport]
+
+/-- Reversing twice is the identity (flows.go Reverse). -/
+theorem reverse_reverse (f : Flow) : f.reverse.reverse = f := rfl
+
+/-- SetInternalPortsForTesting gives a constructed layer the flow of its port fields. -/
+theorem flow_of_setInternalPorts (l : Layer) :
+    ∃ f, transportFlow (setInternalPorts l) = .ok f ∧ f.srcBytes = putBe16 l.srcPort ∧ f.dstBytes = putBe16 l.dstPort := by
+  refine ⟨_, newFlow_ok _ _ _ (by simp [setInternalPorts, putBe16]) (by simp [setInternalPorts, putBe16]), ?_, ?_⟩
+  · simp only [Flow.srcBytes]; exact take_pad16 _
+  · simp only [Flow.dstBytes]; exact take_pad16 _
+
+/-! Non-vacuity: a DNS query and its answer. -/
+example : (decodeUdp Layer.fresh [0xd6, 0x00, 0x00, 0x35, 0x00, 0x09, 0, 0, 7] []).isOk = true ∧
+    (decodeUdp Layer.fresh [0x00, 0x35, 0xd6, 0x00, 0x00, 0x08, 0, 0] []).isOk = true := by decide
+example :
+    (match decodeUdp Layer.fresh [0xd6, 0x00, 0x00, 0x35, 0x00, 0x09, 0, 0, 7] [],
+           decodeUdp Layer.fresh [0x00, 0x35, 0xd6, 0x00, 0x00, 0x08, 0, 0] [] with
+     | .ok (a, _), .ok (b, _) =>
+       (match transportFlow a, transportFlow b with
+        | .ok fa, .ok fb => decide (fb = fa.reverse ∧ fa.srcBytes = [0xd6, 0x00] ∧ fa.typ = 5)
+        | _, _ => false)
+     | _, _ => false) = true := by decide
+
 end Gp.C17.Udp
